@@ -571,6 +571,10 @@ def jobs_for(pid, tier):
     micro_bin = [micro("mb-%s-n%d" % (md, n), md, False, n, [1, 2, 3] if n < 3 else [1, 2, 3, 4], ["binary"])
                  for md in ("map", "set") for n in ((1, 2) if q else (1, 2, 3))]
 
+    # quick tier: bulk construction at capacity 3 (three repeats of one item need three slots)
+    bulk3 = ([J("bulk-n3", ["bulk"], consts={"Caps": [3], "Classes": [0, 1, 2], "Vers": [0], "Vals": [0], "MaxExtra": 0}),
+              J("setbulk-n3", ["bulk"], mode="set", consts={"Caps": [3], "Classes": [0, 1, 2], "Vers": [0], "MaxExtra": 0})] if q else [])
+
     def trace(tag, mode):
         return dict(tag=tag, spec="trace", mode=mode, family=["trace"], runs=(6 if q else 40), steps=(400 if q else 2000),
                     caps=[8, 6, 4, 2], classes=12)
@@ -606,7 +610,7 @@ def jobs_for(pid, tier):
         "C11": both("entry", ["entry"]) + tmap,
         "C12": core + both("entry", ["entry"]) + setcore + tmap + tset,
         "C13": prof(both("disjoint", ["disjoint"], consts={"Vers": [0], "MaxKs": 3}, bigconsts={"MaxKs": 4}), "asan", "miri") + tmap + tbig,
-        "C16": both("bulk", ["bulk"], bigconsts={"MaxExtra": 1}) + both("setbulk", ["bulk"], mode="set", consts={"MaxExtra": 1}, bigconsts={"Vers": [0]}),
+        "C16": both("bulk", ["bulk"], bigconsts={"MaxExtra": 1}) + both("setbulk", ["bulk"], mode="set", consts={"MaxExtra": 1}, bigconsts={"Vers": [0]}) + bulk3,
         "C18": both("unchecked", ["unchecked"], consts={"MaxKs": 3}, bigconsts={"Vers": [0], "MaxKs": 4}) + tmap + tbig,
         "C19": both("fmt", ["fmt", "cursor"]) + core + setcore + pairs("alg", ["algebra"], "set", qcaps[:2] if q else tcaps[:6])
                + ([J("fmt-n3", ["fmt"], consts={"Caps": [3], "Vers": [0], "Vals": [0]}), J("setfmt-n3", ["fmt"], mode="set", consts={"Caps": [3], "Vers": [0]})] if q else []),
@@ -633,7 +637,7 @@ def jobs_for(pid, tier):
                 + both("setcore", ["core"], mode="set", consts={"Vers": [0]}) + both("setbc", ["bulk"], mode="set", consts={"MaxExtra": 1, "Vers": [0]})]
                     + [dict(j, sweep="adversarial", max_leaves=(64 if q else 512)) for j in pairs("algadv", ["algebra", "eq"], "set", qcaps[:2] if q else tcaps[:6])], "asan"),
         "C05": core + both("ecubc", ["entry", "cursor", "unchecked", "bulk", "clone"], consts={"Vers": [0]}, bigconsts={"MaxExtra": 1}) + setcore
-               + both("setbc", ["bulk", "clone"], mode="set", consts={"MaxExtra": 1}, bigconsts={"Vers": [0]}) + tmap + tset,
+               + both("setbc", ["bulk", "clone"], mode="set", consts={"MaxExtra": 1}, bigconsts={"Vers": [0]}) + tmap + tset + bulk3,
         "C02": shaped(core) + prof(shaped(both("cursor", ["cursor"])), "miri") + both("eubc", ["entry", "unchecked", "bulk", "clone"], consts={"Vers": [0]}, bigconsts={"MaxExtra": 1})
                + setcore + both("setbc", ["bulk", "clone"], mode="set", consts={"MaxExtra": 1}, bigconsts={"Vers": [0]}) + tmap + tset,
         "C03": prof(shaped(core) + both("entry", ["entry"]) + shaped(both("bulk", ["bulk"], bigconsts={"MaxExtra": 1})) + shaped(setcore)
